@@ -159,4 +159,78 @@ theorem run_introspectProg (rc : RunCfg) (hp : Plain rc) (cfg : Config) (now : T
         rw [h4, h1]
         cases refreshVerdict cfg now q rs.ss.store <;> exact ⟨h3.trans h1, rfl⟩
 
+/-! ### the HTTP endpoint: caller authentication in front of `IntrospectToken` -/
+
+/-- what the endpoint says about the inspected token once the caller is accepted -/
+def inspectPure (cfg : Config) (now : Time) (q : IntrospectReq) (st : Store) : Out :=
+  match introspectPure cfg now q st with
+  | .active use x => .active use x
+  | _ => .inactive .token_inactive
+
+/-- `NewIntrospectionRequest` as a function of the state -/
+def introspectEndpointPure (cfg : Config) (now : Time) (r : IntrospectEndpointReq) (ss : SState) : Out :=
+  match r.caller with
+  | .bearer tok identical =>
+    if identical then .err .request_unauthorized else
+    match introspectPure cfg now { token := tok, hint := .access, scopes := [] } ss.store with
+    | .active use _ => if use != "access_token" then .err .request_unauthorized else inspectPure cfg now r.q ss.store
+    | _ => .err .request_unauthorized
+  | .basic id secretOk =>
+    match ss.clients.find? (fun c => c.id == id) with
+    | some _ => if secretOk then inspectPure cfg now r.q ss.store else .err .request_unauthorized
+    | none => .err .request_unauthorized
+  | .anonymous => .err .request_unauthorized
+
+/-- **The introspection endpoint refines a pure function of the state and changes nothing.** -/
+theorem run_introspectEndpointProg (rc : RunCfg) (hp : Plain rc) (cfg : Config) (now : Time)
+    (r : IntrospectEndpointReq) (rs : RState) :
+    (run rc rs (introspectEndpointProg cfg now r)).1.ss = rs.ss ∧
+    (run rc rs (introspectEndpointProg cfg now r)).2 = introspectEndpointPure cfg now r rs.ss := by
+  have bindP : ∀ {α β} (p : Prog α) (f : α → Prog β), (p >>= f) = p.bind f := fun _ _ => rfl
+  have hinspect : ∀ rs' : RState, rs'.ss = rs.ss →
+      (run rc rs' (do
+        match ← introspectProg cfg now r.q with
+        | .active use x => return .active use x
+        | _ => return Out.inactive .token_inactive : Prog Out)).1.ss = rs.ss ∧
+      (run rc rs' (do
+        match ← introspectProg cfg now r.q with
+        | .active use x => return .active use x
+        | _ => return Out.inactive .token_inactive : Prog Out)).2 = inspectPure cfg now r.q rs.ss.store := by
+    intro rs' hss
+    obtain ⟨h1, h2⟩ := run_introspectProg rc hp cfg now r.q rs'
+    simp only [bindP, run_bind]
+    rw [h2, hss]
+    unfold inspectPure
+    cases introspectPure cfg now r.q rs.ss.store <;> exact ⟨by rw [← hss]; exact h1, rfl⟩
+  unfold introspectEndpointProg introspectEndpointPure
+  cases hc : r.caller with
+  | bearer tok identical =>
+    simp only
+    by_cases hi : identical = true
+    · simp only [hi, if_true]; exact ⟨rfl, rfl⟩
+    · simp only [hi, Bool.false_eq_true, if_false, bindP, run_bind]
+      obtain ⟨h1, h2⟩ := run_introspectProg rc hp cfg now { token := tok, hint := .access, scopes := [] } rs
+      rw [h2]
+      cases hv : introspectPure cfg now { token := tok, hint := .access, scopes := [] } rs.ss.store with
+      | active use x =>
+        simp only
+        by_cases hu : (use != "access_token") = true
+        · simp only [hu, if_true]; exact ⟨h1, rfl⟩
+        · simp only [hu, Bool.false_eq_true, if_false]
+          exact hinspect _ h1
+      | _ => exact ⟨h1, rfl⟩
+  | basic id secretOk =>
+    simp only [bindP, Prog.bind, call, run_call]
+    obtain ⟨h1, h2⟩ := step_read rc hp rs (.getClient id) rfl (exec_getClient_fst _ _)
+    rw [h2]
+    simp only [SState.exec]
+    cases hf : rs.ss.clients.find? (fun c => c.id == id) with
+    | none => exact ⟨h1, rfl⟩
+    | some c =>
+      simp only
+      by_cases hs : secretOk = true
+      · simp only [hs, if_true]; exact hinspect _ h1
+      · simp only [hs, Bool.false_eq_true, if_false]; exact ⟨h1, rfl⟩
+  | anonymous => exact ⟨rfl, rfl⟩
+
 end Fosite.Model
